@@ -124,16 +124,21 @@ def _parse(data: bytes) -> dict:
                        ("kid.len_domain", 44, 48), ("kid.len_forest", 48, 52)):
         off[name] = (ks + a, ks + b)
     off["kid.key_info"] = (ks + 52, ks + 52 + len(kid["key_info"]))
+    if kid["flags"] & 1 and len(kid["key_info"]) >= 8:  # public-key mode: key_info is an FFC DH key / ECDH key structure
+        off["ki.magic"] = (ks + 52, ks + 56)
+        off["ki.key_length"] = (ks + 56, ks + 60)
     return {"key_identifier": kid, "key_identifier_raw": kid_node.content, "sid": sid_node.content.decode("utf-8"),
             "enc_cek": enc_cek.content, "gcm_nonce": nonce.content, "gcm_icvlen": icv, "enc_content": enc_content,
             "layout": layout, "offsets": off, "ci_end": ci.end, "trailing": trailing}
 
 
-def build_blob(key_identifier: bytes, sid: str, enc_cek: bytes, gcm_nonce: bytes, enc_content: bytes, in_envelope: bool = True) -> bytes:
+def build_blob(key_identifier: bytes, sid: str, enc_cek: bytes, gcm_nonce: bytes, enc_content: bytes, in_envelope: bool = True,
+               cea_raw: t.Optional[bytes] = None) -> bytes:
+    """cea_raw: a complete replacement for the content-encryption AlgorithmIdentifier (used to build algorithm-substitution faults)."""
     pd = der.seq(der.enc_oid(OID_SID_DESCRIPTOR), der.seq(der.seq(der.seq(der.utf8("SID"), der.utf8(sid)))))
     kekid = der.seq(der.octets(key_identifier), der.seq(der.enc_oid(OID_MS_SOFTWARE), pd))
     kekri = der.tlv(2, True, 2, der.enc_int(4) + kekid + der.seq(der.enc_oid(OID_AES256_WRAP)) + der.octets(enc_cek))
-    cea = der.seq(der.enc_oid(OID_AES256_GCM), der.seq(der.octets(gcm_nonce), der.enc_int(16)))
+    cea = cea_raw if cea_raw is not None else der.seq(der.enc_oid(OID_AES256_GCM), der.seq(der.octets(gcm_nonce), der.enc_int(16)))
     eci = der.seq(der.enc_oid(OID_DATA), cea, der.tlv(2, False, 0, enc_content) if (in_envelope and enc_content) else b"")
     ed = der.seq(der.enc_int(2), der.set_(kekri), eci)
     ci = der.seq(der.enc_oid(OID_ENVELOPED), der.tlv(2, True, 0, ed))
